@@ -189,8 +189,10 @@ func (c *client) PushBlobChunked(ctx context.Context, repo string, chunkSize int
 		ctx:       ctx,
 		client:    c,
 		chunkSize: chunkSizeFromResponse(resp, chunkSize),
-		chunk:     make([]byte, 0, chunkSize),
-		location:  location,
+		// Note: don't allocate the chunk buffer up front: the chunk
+		// size is only a hint and might be much larger than
+		// anything that's ever written.
+		location: location,
 	}, nil
 }
 
